@@ -26,6 +26,7 @@ def check(ctx):
     ctx.floor('R3', 2)
     ctx.floor('R4', 1)
     ctx.floor('R5', 2, 'fromevent, candidate_jump')
+    ctx.include('C03', 'E', only=('R2', 'R3'))   # the event table the scanner reads (frame offsets, wrap removal, column kinds)
     it = ctx.pipeline()
     fi = ctx.fn(G2J)
     inside = lambda f: f.qualname == G2J
@@ -77,6 +78,23 @@ def check(ctx):
                    'atom indices of the event table' if ok else
                    (f'holds positions inside a filtered selection of atoms, not atom indices: jumps are attributed to the wrong atom'
                     if ai.idx is not None and ai.idx[0] == 'SUBPOS' else f"'atom index' holds {ai.idx}"))
+    # role consistency of the reported rows: (destination, stop time) from the arrival event, (origin, start time) from the departure
+    seen_nodes = set()
+    for e in it.events:
+        if e['tag'] != 'append' or e['where'] is None or e['where'].qualname != G2J or id(e['node']) in seen_nodes:
+            continue
+        v = e['value']
+        if v is None or v.ty != 'Row' or not v.cols:
+            continue
+        seen_nodes.add(id(e['node']))
+        c = v.cols
+        rd, rs = (c.get('destination site').role if c.get('destination site') is not None else None), (c.get('stop time').role if c.get('stop time') is not None else None)
+        ro, rt = (c.get('start site').role if c.get('start site') is not None else None), (c.get('start time').role if c.get('start time') is not None else None)
+        ok = (rd == rs) and (ro == rt)
+        ctx.ob('R2', fi, e['node'], ok, 'destination and stop time come from one event, origin and start time from one event' if ok else
+               ("the reported row takes its destination from one event but its stop time from another: for a jump through a 'no site' gap the stop "
+                'time is not the first frame at the destination' if rd != rs else
+                'the reported row takes its origin from one event but its start time from another'))
     # ---- R3
     n = 0
     for e in uniq_events(it, {'append'}, inside):
@@ -119,6 +137,16 @@ def check_scanner_state(ctx, rule):
             for n_ in ast.walk(s_):
                 if isinstance(n_, ast.Name) and isinstance(n_.ctx, ast.Store):
                     reset.add(n_.id)
+        exits = [w for w in walk_no_nested(i_) if isinstance(w, (ast.Continue, ast.Break)) ]
+        own_exits = []
+        for w in exits:
+            # only exits of this loop (not of loops nested inside it)
+            inner_loops = [l_ for l_ in ast.walk(i_) if isinstance(l_, (ast.For, ast.While)) and l_ is not i_ and any(x is w for x in ast.walk(l_))]
+            if not inner_loops:
+                own_exits.append(w)
+        ctx.ob(rule, fi, 'event scan has no early exit', not own_exits, 'every event is processed by all stages of the scan' if not own_exits else
+               f'`{norm_text(own_exits[0])}` skips the remaining stages for some events: an event that confirms a pending jump is not examined as a '
+               f'departure / arrival itself, so jumps are lost or appear when the minimal residence is raised')
         for name in carried:
             ok = name in reset
             ctx.ob(rule, fi, f'scanner state `{name}`', ok, 'reset for every atom before its events are scanned' if ok else
